@@ -14,15 +14,18 @@ CatMultiPoint == << El(<< << <<P(0, 0), P(4, 4)>> >> >>), NULL, El(<< << <<P(2, 
                     El(<< << <<P(4, 0), P(4, 2), P(2, 0)>> >> >>), El(<< << <<P(2, 2)>> >> >>) >>
 CatLine == << El(<< << <<P(0, 0), P(4, 4)>> >> >>), El(<< << <<P(0, 4), P(2, 4)>> >> >>), NULL,
               El(<< << <<P(4, 0), P(4, 2), P(2, 2)>> >> >>), El(<< << <<>> >> >>), El(<< << <<P(2, 2)>> >> >>),
-              El(<< << <<P(0, 4), P(2, 4)>> >> >>) >>
+              El(<< << <<P(0, 4), P(2, 4)>> >> >>), El(<< << <<P(0, 4), P(4, 0)>> >> >>) >>
 CatRing == << El(<< << SqCCW(0, 0, 4) >> >>), NULL, El(<< << <<P(0, 0), P(2, 0), P(0, 2), P(0, 0)>> >> >>), El(<< << <<>> >> >>),
               El(<< << SqCW(3, 3, 1) >> >>) >>
 CatMultiLine == << El(<< << <<P(0, 0), P(4, 4)>>, <<P(0, 4), P(2, 4)>> >> >>), NULL, El(<< <<>> >>), El(<< << <<>> >> >>),
-                   El(<< << <<P(4, 0), P(4, 2)>> >> >>), El(<< << <<P(2, 2), P(2, 3)>>, <<>> >> >>) >>
+                   El(<< << <<P(4, 0), P(4, 2)>> >> >>), El(<< << <<P(2, 2), P(2, 3)>>, <<>> >> >>),
+                   El(<< << <<P(0, 4), P(4, 0)>>, <<P(0, 0), P(1, 0)>> >> >>) >>
 CatPolygon == << El(<< << SqCCW(0, 0, 4), SqCW(1, 1, 2) >> >>), El(<< << <<P(0, 0), P(2, 0), P(0, 2), P(0, 0)>> >> >>), NULL,
-                 El(<< <<>> >>), El(<< << SqCW(3, 3, 1) >> >>), El(<< << <<>> >> >>), El(<< << SqCCW(0, 0, 4), SqCW(1, 1, 2) >> >>) >>
+                 El(<< <<>> >>), El(<< << SqCW(3, 3, 1) >> >>), El(<< << <<>> >> >>), El(<< << SqCCW(0, 0, 4), SqCW(1, 1, 2) >> >>),
+                 El(<< << <<P(0, 0), P(4, 0), P(4, 4), P(0, 0)>> >> >>), El(<< << <<P(0, 0), P(4, 4), P(0, 4), P(0, 0)>> >> >>) >>
 CatMultiPolygon == << El(<< << <<P(0, 0), P(2, 0), P(0, 2), P(0, 0)>> >>, << SqCCW(3, 3, 1) >> >>), NULL, El(<<>>),
-                      El(<< << SqCCW(0, 0, 4), SqCW(1, 1, 2) >>, << SqCCW(2, 2, 1) >> >>), El(<< <<>> >>), El(<< << SqCW(3, 0, 1) >> >>) >>
+                      El(<< << SqCCW(0, 0, 4), SqCW(1, 1, 2) >>, << SqCCW(2, 2, 1) >> >>), El(<< <<>> >>), El(<< << SqCW(3, 0, 1) >> >>),
+                      El(<< << <<P(0, 0), P(4, 0), P(4, 4), P(0, 0)>> >> >>), El(<< << <<P(0, 0), P(4, 4), P(0, 4), P(0, 0)>> >>, << SqCW(3, 0, 1) >> >>) >>
 
 CatOf(kind) == CASE kind = "point" -> CatPoint [] kind = "multipoint" -> CatMultiPoint [] kind = "line" -> CatLine
                  [] kind = "ring" -> CatRing [] kind = "multiline" -> CatMultiLine [] kind = "polygon" -> CatPolygon
